@@ -299,8 +299,13 @@ impl World {
         if let Some(op) = tamper {
             match faults::apply_usk_op(self, user, &bytes, op) {
                 Some(b2) if b2 != bytes => {
+                    // Does the re-framed key present the same byte string to the issuer's MAC?
+                    let same_mac = match (faults::mac_view(&bytes), faults::mac_view(&b2)) {
+                        (Some(a), Some(b)) => a == b,
+                        _ => false,
+                    };
                     bytes = b2;
-                    tag = Some(faults::usk_op_name(op).to_string());
+                    tag = Some(format!("{}/{}", faults::usk_op_name(op), if same_mac { "same-mac-input" } else { "different-mac-input" }));
                     self.stats.fault(faults::usk_op_name(op));
                 }
                 _ => {
@@ -355,6 +360,14 @@ impl World {
                     forged = None;
                     m = orig.clone();
                     self.stats.noop_mutations += 1;
+                } else if let Some(v) = faults::without_ps(&b2) {
+                    // Identifier, rights, secrets and signature exactly those of an issued key,
+                    // only the embedded tracing points differ: outside C08's statement.
+                    if self.issued.keys().any(|k| faults::without_ps(k).as_ref() == Some(&v)) {
+                        self.stats.probe("forged-only-tracing-points-differ");
+                        self.outcomes.push("refresh:skipped-ps-only".into());
+                        return;
+                    }
                 }
             }
         }
@@ -743,14 +756,28 @@ impl World {
         let Some((usk, mu)) = &self.users[user].usk else {
             return;
         };
-        let s = &self.slots[slot];
-        let aad_used: Option<Vec<u8>> = match &s.read_aad {
+        let s0 = &self.slots[slot];
+        let aad_used: Option<Vec<u8>> = match &s0.read_aad {
             Some(a) => a.clone(),
-            None => s.aad.clone(),
+            None => s0.aad.clone(),
         };
-        let r = Self::open_slot(&self.users[user].cc, usk, &s.kind, &s.bytes, aad_used.as_deref());
+        let r = Self::open_slot(&self.users[user].cc, usk, &s0.kind, &s0.bytes, aad_used.as_deref());
         let opaque = mu.unspecified;
-        let tampered = s.bytes != s.orig;
+        // A fault may have replaced the stored bytes wholesale by another valid object of the
+        // store (torn write with cut 0, misdirected write): that is not a modification of an
+        // encapsulation but another encapsulation, whose own expectations apply.
+        let mut src = slot;
+        if s0.bytes != s0.orig {
+            for (j, o) in self.slots.iter().enumerate() {
+                if j != slot && o.kind == s0.kind && (o.orig == s0.bytes || faults::same_object(&o.kind, &o.orig, &s0.bytes)) {
+                    src = j;
+                    break;
+                }
+            }
+        }
+        let bytes_now = s0.bytes.clone();
+        let s = &self.slots[src];
+        let tampered = bytes_now != s.orig;
         let aad_mismatch = s.kind == SlotKind::Header && s.meta.is_some() && norm_aad(&aad_used) != norm_aad(&s.aad);
         let expect_open = mu.opens(&s.m);
         let explain = mu.explain(&s.m);
@@ -794,12 +821,27 @@ impl World {
         }
         if tampered || aad_mismatch {
             // Is the mutation a no-op at object level?
-            let noop = tampered && !aad_mismatch && faults::same_object(&kind, &self.slots[slot].bytes, &self.slots[slot].orig);
+            let noop = tampered && !aad_mismatch && faults::same_object(&kind, &bytes_now, &self.slots[src].orig);
             if !noop {
                 self.stats.check("tampered-read");
                 if let Ok(Some((got_secret, got_payload))) = &r {
                     let same = *got_secret == secret && (exp_payload.is_none() || *got_payload == exp_payload);
-                    let what = if aad_mismatch && !tampered {
+                    // Header whose encapsulation is intact and whose encrypted metadata was removed
+                    // altogether (length 0 on the wire = "no metadata").
+                    let stripped = kind == SlotKind::Header && tampered && {
+                        let o = &self.slots[src];
+                        match (wire::parse_header(&bytes_now), wire::parse_header(&o.orig)) {
+                            (Ok(a), Ok(b)) => {
+                                a.meta_span.0 == a.meta_span.1
+                                    && b.meta_span.0 != b.meta_span.1
+                                    && bytes_now[..a.enc.end] == o.orig[..b.enc.end]
+                            }
+                            _ => false,
+                        }
+                    };
+                    let what = if stripped {
+                        format!("{kname}/metadata-stripped-accepted")
+                    } else if aad_mismatch && !tampered {
                         format!("{kname}/authentication-data-mismatch-accepted")
                     } else {
                         format!("{kname}/{}/{flav}", if same { "altered-input-yields-original" } else { "altered-input-yields-other-data" })
